@@ -48,8 +48,10 @@ def run_world(prop, values_or_seed, tier, cfg, fault=None, replay=False):
     try:
         prop.run(ch, ctx, fault)
     except Violation as v:
-        viol = v
+        # keep nothing of the failed world alive (frames hold open files, images, ...)
+        viol = Violation(v.invariant, v.detail, v.site)
         ctx.log("violation", v.invariant, v.site)
+        del v
     return ctx, ch, viol
 
 
